@@ -3,6 +3,7 @@ import contextlib
 import io
 import os
 import runpy
+import warnings
 import sys
 
 from vf import harness
@@ -78,7 +79,10 @@ def run_tool(script, dtype, extra, dashf, tr):
     where = "%s %s over %s" % (script, " ".join(extra), tr)
     try:
         sys.argv = [full] + (["-f", path] if dashf else [path]) + extra
-        with contextlib.redirect_stdout(sink):
+        with contextlib.redirect_stdout(sink), warnings.catch_warnings():
+            # (the scripts themselves print bytearrays with str(): under `python -bb` that is the script's business, not the library's;
+            # the filter covers frames of the script only)
+            warnings.filterwarnings("ignore", category=BytesWarning, module="__main__")
             runpy.run_path(full, run_name="__main__")
     except SystemExit as e:
         if e.code not in (None, 0):
